@@ -5,9 +5,30 @@
    the snippet's definition in its place; attributes, text, repeaters and the self-closing mark written
    on the alias are applied to the top-level elements of the definition and children go into its deepest
    element.  Resolution terminates for every snippet table, including self-referencing and mutually
-   recursive user snippets, with nesting no deeper than the number of snippets. *)
+   recursive user snippets, with nesting no deeper than the number of snippets.
+
+   State.  Termination / depth: for ALL tables (first block).  alias = definition:
+   * for ALL tables and every key whose definition does not reach itself (self_free, exact and decidable):
+     C14_alias_eq_definition (markup_parse and expand of the key alone = of the definition text), and the
+     decorated alias as theorems about walk_resolve against the definition RESOLVED IN PLACE
+     (C14_alias_decorated / _attributes / _repeat / _text / _self_closing / _children), plus the strings `k>c`,
+     `k+c`, `k.c`, `k#c` on the alias side;
+   * the two-snippet cycle of C14_cyclic_cut_refuted shows why the hypothesis is there;
+   * complete sweep of the built-in tables (which contain self-references such as a = a[href]) at string level.
+   * the decoration moved onto the parsed definition D (C14_alias_attributes_pre / _repeat_pre / _text_pre /
+     _self_closing_pre, and _children_pre under the side condition that no node on D's last-child chain resolves
+     to nothing -- C14_dead_chain_differs shows it is needed).
+   * `k>c` = `d>c` as strings (C14_alias_child_eq_definition_child) under the reading hypothesis that the text `d>c`
+     parses to D with c hung below find_deepest; C14_child_reads_below_flat proves that hypothesis (parser +
+     converter) for definitions without groups that end with an element which is not a text node, without
+     repeater on the last-child chain, GIVEN that the tokenizer reads `d>c` as the tokens of d, `>`, c.
+   NOT proved for all tables: that tokenizer fact (appending `>c` does not change the tokens of d); definitions
+   with groups; and the textual forms of the other decorations (d with the attributes / `*N` written on its
+   top-level elements parses to D with the decoration).  These textual forms are covered by the sweep
+   (built-in tables) and by the random user tables of the harness. *)
 From Emmet Require Import lib.Base model.MarkupTokenizer model.MarkupParser model.MarkupConvert
-     model.MarkupResolve model.MarkupExpand proofs.SnippetProofs proofs.SnippetSweep.
+     model.MarkupResolve model.MarkupExpand proofs.ParserSpine proofs.SnippetProofs proofs.SnippetSweep
+     proofs.SnippetAcyclic proofs.SnippetAliasParse proofs.SnippetAliasForms proofs.SnippetDecorate proofs.SnippetChildString proofs.SnippetChildParse.
 
 (* termination, for ALL snippet tables and ALL trees: with the fuel markup_parse supplies
    (number of snippets + 1) the resolver never reports OutOfFuel *)
@@ -97,6 +118,406 @@ Theorem C14_sweep_complete :
     In (name, (k, d)) all_table_entries -> In (name, (k, d)) all_alias_pairs.
 Proof. exact sweep_complete. Qed.
 Print Assumptions C14_sweep_complete.
+
+(* ================================================================ alias = definition, for ALL tables
+   that are acyclic in the sense that matters.
+
+   [mentions cfg s]: the definitions the snippet text [s] refers to = every node, at any depth, of [s] as
+   resolve() parses it whose name is a key of the table with a non-empty value; [reaches] = its transitive
+   closure.  Decidable predicates (bool), each computed by the depth-first walk the resolver itself does,
+   with its guard stack as the path and its bound |snippets| as fuel:
+     self_free cfg d      the walk from the definition d, resolved in place, never asks the guard about d
+                          = d does not reach itself                          (the hypothesis of the theorems)
+     acyclic_from cfg d   the walk from d never meets a definition on its own path
+                          = nothing reachable from d lies on a cycle         (stronger)
+     acyclic_table cfg    acyclic_from for every value = no value reaches itself   (strongest)
+   A cycle that does not pass through d (`a` = `a[href]` below a definition that mentions `a`) is cut at
+   the same point on both sides and does no harm (C14_self_free_weaker). *)
+
+(* the hypothesis of the theorems below, exactly: the definition does not reach itself through the names
+   it mentions *)
+Theorem C14_self_free_means :
+  forall (cfg : mconfig) (d : str), self_free cfg d = true <-> ~ reaches cfg d d.
+Proof. exact self_free_spec. Qed.
+Print Assumptions C14_self_free_means.
+
+Theorem C14_acyclic_from_self_free :
+  forall (cfg : mconfig) (d : str), acyclic_from cfg d = true -> self_free cfg d = true.
+Proof. exact self_free_of_acyclic_from. Qed.
+Print Assumptions C14_acyclic_from_self_free.
+
+(* a guard-stack entry the walk never asks about can be dropped, at any fuel: the lemma behind
+   "the definition below its alias (stack [d]) resolves as the definition in place (stack [])" *)
+Theorem C14_guard_entry_dropped :
+  forall (cfg : mconfig) (d : str) (fuel f : nat) (st : list str) (l : list anode),
+    forallb (nohit f cfg d st) (forest_defs cfg l) = true ->
+    walk_resolve fuel cfg (st ++ [d]) l = walk_resolve fuel cfg st l.
+Proof. exact walk_stack_drop. Qed.
+Print Assumptions C14_guard_entry_dropped.
+
+(* the decidable predicates say: no snippet value reaches itself through the names it mentions *)
+Theorem C14_acyclic_table_means :
+  forall cfg : mconfig,
+    acyclic_table cfg = true <-> (forall s, In s (snippet_values cfg) -> ~ reaches cfg s s).
+Proof. exact acyclic_table_spec. Qed.
+Print Assumptions C14_acyclic_table_means.
+
+Theorem C14_acyclic_from_means :
+  forall (cfg : mconfig) (d : str), In d (snippet_values cfg) ->
+    (acyclic_from cfg d = true <-> (forall t, t = d \/ reaches cfg d t -> ~ reaches cfg t t)).
+Proof. exact acyclic_from_spec. Qed.
+Print Assumptions C14_acyclic_from_means.
+
+(* where the guard cannot fire (every definition the forest refers to is safe w.r.t. [path]) the result
+   of the resolver does not depend on the guard stack, for any fuel *)
+Theorem C14_guard_stack_irrelevant :
+  forall (cfg : mconfig) (fuel f : nat) (path st1 st2 : list str) (l : list anode),
+    incl st1 path -> incl st2 path ->
+    forallb (safe f cfg path) (forest_defs cfg l) = true ->
+    walk_resolve fuel cfg st1 l = walk_resolve fuel cfg st2 l.
+Proof. exact walk_stack_indep. Qed.
+Print Assumptions C14_guard_stack_irrelevant.
+
+(* a key written over letters, ASCII digits, `-` `_` `:` `!` (all built-in keys are) is one bare node *)
+Theorem C14_key_is_one_node :
+  forall (jsx : bool) (env : cenv) (mr : option N) (k : str),
+    key_text k = true -> ce_text env = WNone ->
+    parse_abbr jsx env mr k = Ok [ANode (Some k) None None None [] false].
+Proof. exact parse_abbr_key. Qed.
+Print Assumptions C14_key_is_one_node.
+
+(* THE statement: for EVERY snippet table, every key k whose definition d does not reach itself
+   (self_free), every configuration without wrap text in which the definition text reads the same in the
+   abbreviation as in the table (same_reading: resolve() parses definitions with jsx off and
+   user_config['max_repeat']): the resolved and transformed tree of `k` is that of `d`.
+   (resolve_def = parse the definition + resolve it at top level with the empty guard stack and the
+   full fuel, i.e. the definition in the alias' place.) *)
+Theorem C14_alias_eq_definition :
+  forall (cfg : mconfig) (k d : str),
+    key_text k = true ->
+    def_of cfg (Some k) = Some d -> self_free cfg d = true ->
+    mc_text cfg = WNone -> same_reading cfg d ->
+    markup_parse cfg k = markup_parse cfg d.
+Proof. exact alias_eq_definition. Qed.
+Print Assumptions C14_alias_eq_definition.
+
+(* ... hence the same output string, in every syntax / output profile *)
+Theorem C14_alias_eq_definition_expand :
+  forall (x : xconfig) (k d : str),
+    key_text k = true ->
+    def_of (xc_m x) (Some k) = Some d -> self_free (xc_m x) d = true ->
+    mc_text (xc_m x) = WNone -> same_reading (xc_m x) d ->
+    expand_markup_str x k = expand_markup_str x d.
+Proof. exact alias_eq_definition_expand. Qed.
+Print Assumptions C14_alias_eq_definition_expand.
+
+(* the same with the semantic hypothesis *)
+Theorem C14_alias_eq_definition_not_reaching :
+  forall (cfg : mconfig) (k d : str),
+    key_text k = true -> def_of cfg (Some k) = Some d -> ~ reaches cfg d d ->
+    mc_text cfg = WNone -> same_reading cfg d ->
+    markup_parse cfg k = markup_parse cfg d.
+Proof. exact alias_eq_definition_not_reaching. Qed.
+Print Assumptions C14_alias_eq_definition_not_reaching.
+
+(* configuration-level form: every key of an acyclic table, jsx off, no wrap text, one max_repeat *)
+Theorem C14_alias_eq_definition_table :
+  forall (cfg : mconfig) (k d : str),
+    acyclic_table cfg = true ->
+    key_text k = true -> def_of cfg (Some k) = Some d ->
+    mc_jsx cfg = false -> mc_text cfg = WNone -> mc_max_repeat cfg = mc_max_repeat_snip cfg ->
+    markup_parse cfg k = markup_parse cfg d.
+Proof. exact alias_eq_definition_table. Qed.
+Print Assumptions C14_alias_eq_definition_table.
+
+(* the decorated alias, as a theorem about walk_resolve at the top level of an abbreviation (guard stack
+   empty, full fuel), for all tables in which d does not reach itself: the definition RESOLVED IN PLACE, each top-level
+   node merged with the alias, the alias' resolved children under find_deepest; a definition that
+   resolves to the empty forest drops the alias and its children (deepest is the Abbreviation itself) *)
+Theorem C14_alias_decorated :
+  forall (cfg : mconfig) (k d : str) v rp at_ ch sc,
+    def_of cfg (Some k) = Some d -> self_free cfg d = true ->
+    walk_resolve (full_fuel cfg) cfg [] [ANode (Some k) v rp at_ ch sc] =
+    let* resolved := resolve_def cfg d in
+    let tops := map (merge_into (mc_reverse_attrs cfg) (ANode (Some k) v rp at_ ch sc)) resolved in
+    match tops with
+    | [] => Ok []
+    | _ :: _ => let* kids := walk_resolve (full_fuel cfg) cfg [] ch in Ok (attach_deepest tops kids)
+    end.
+Proof. exact alias_eq_definition_decorated. Qed.
+Print Assumptions C14_alias_decorated.
+
+(* `k[attrs]` / `k.c` / `k#i` = the definition with those attributes appended to the attribute list of each
+   top-level node; under reverseAttributes they are put in FRONT of the definition's own *)
+Theorem C14_alias_attributes :
+  forall (cfg : mconfig) (k d : str) a at_,
+    def_of cfg (Some k) = Some d -> self_free cfg d = true ->
+    walk_resolve (full_fuel cfg) cfg [] [ANode (Some k) None None (Some (a :: at_)) [] false] =
+    let* resolved := resolve_def cfg d in Ok (map (add_attrs (mc_reverse_attrs cfg) (a :: at_)) resolved).
+Proof. exact alias_attributes. Qed.
+Print Assumptions C14_alias_attributes.
+
+(* `k*N`: each copy of the alias is replaced by the definition's top-level nodes carrying its repeater *)
+Theorem C14_alias_repeat :
+  forall (cfg : mconfig) (k d : str) r,
+    def_of cfg (Some k) = Some d -> self_free cfg d = true ->
+    walk_resolve (full_fuel cfg) cfg [] [ANode (Some k) None (Some r) None [] false] =
+    let* resolved := resolve_def cfg d in Ok (map (set_repeat r) resolved).
+Proof. exact alias_repeat. Qed.
+Print Assumptions C14_alias_repeat.
+
+(* `k{text}`: the text replaces the value of each top-level node; `k/`: each is self-closing *)
+Theorem C14_alias_text :
+  forall (cfg : mconfig) (k d : str) x,
+    def_of cfg (Some k) = Some d -> self_free cfg d = true ->
+    walk_resolve (full_fuel cfg) cfg [] [ANode (Some k) (Some x) None None [] false] =
+    let* resolved := resolve_def cfg d in Ok (map (set_value x) resolved).
+Proof. exact alias_text. Qed.
+Print Assumptions C14_alias_text.
+
+Theorem C14_alias_self_closing :
+  forall (cfg : mconfig) (k d : str),
+    def_of cfg (Some k) = Some d -> self_free cfg d = true ->
+    walk_resolve (full_fuel cfg) cfg [] [ANode (Some k) None None None [] true] =
+    let* resolved := resolve_def cfg d in Ok (map set_self resolved).
+Proof. exact alias_self_closing. Qed.
+Print Assumptions C14_alias_self_closing.
+
+(* `k>children`: the definition's forest with the resolved children appended below the end of the
+   last-child chain of its last top-level node (whatever that node is: element or text node) *)
+Theorem C14_alias_children :
+  forall (cfg : mconfig) (k d : str) ch,
+    def_of cfg (Some k) = Some d -> self_free cfg d = true ->
+    walk_resolve (full_fuel cfg) cfg [] [ANode (Some k) None None None ch false] =
+    let* resolved := resolve_def cfg d in
+    match resolved with
+    | [] => Ok []
+    | _ :: _ => let* kids := walk_resolve (full_fuel cfg) cfg [] ch in Ok (attach_deepest resolved kids)
+    end.
+Proof. exact alias_children. Qed.
+Print Assumptions C14_alias_children.
+
+(* ---------------------------------------------------------------- the decoration moved onto the definition:
+   the decorated alias resolves like the PARSED DEFINITION (D = the forest resolve() reads the definition as)
+   with the decoration put on it, resolved in the alias' place -- "the definition written in place, with the
+   attributes on each of its top-level elements / the child under its deepest element", as trees *)
+Theorem C14_alias_attributes_pre :
+  forall (cfg : mconfig) (k d : str) (D : list anode) a X,
+    def_of cfg (Some k) = Some d -> self_free cfg d = true -> parse_def cfg d = Ok D ->
+    walk_resolve (full_fuel cfg) cfg [] [ANode (Some k) None None (Some (a :: X)) [] false] =
+    walk_resolve (full_fuel cfg) cfg [] (map (add_attrs (mc_reverse_attrs cfg) (a :: X)) D).
+Proof. exact alias_attributes_pre. Qed.
+Print Assumptions C14_alias_attributes_pre.
+
+Theorem C14_alias_repeat_pre :
+  forall (cfg : mconfig) (k d : str) (D : list anode) r,
+    def_of cfg (Some k) = Some d -> self_free cfg d = true -> parse_def cfg d = Ok D ->
+    walk_resolve (full_fuel cfg) cfg [] [ANode (Some k) None (Some r) None [] false] =
+    walk_resolve (full_fuel cfg) cfg [] (map (set_repeat r) D).
+Proof. exact alias_repeat_pre. Qed.
+Print Assumptions C14_alias_repeat_pre.
+
+Theorem C14_alias_text_pre :
+  forall (cfg : mconfig) (k d : str) (D : list anode) x,
+    def_of cfg (Some k) = Some d -> self_free cfg d = true -> parse_def cfg d = Ok D ->
+    walk_resolve (full_fuel cfg) cfg [] [ANode (Some k) (Some x) None None [] false] =
+    walk_resolve (full_fuel cfg) cfg [] (map (set_value x) D).
+Proof. exact alias_text_pre. Qed.
+Print Assumptions C14_alias_text_pre.
+
+Theorem C14_alias_self_closing_pre :
+  forall (cfg : mconfig) (k d : str) (D : list anode),
+    def_of cfg (Some k) = Some d -> self_free cfg d = true -> parse_def cfg d = Ok D ->
+    walk_resolve (full_fuel cfg) cfg [] [ANode (Some k) None None None [] true] =
+    walk_resolve (full_fuel cfg) cfg [] (map set_self D).
+Proof. exact alias_self_closing_pre. Qed.
+Print Assumptions C14_alias_self_closing_pre.
+
+(* children: with the side condition of the code -- every node on the last-child chain of the definition
+   resolves to a non-empty forest ([live]; in particular when no node of the chain is an alias,
+   [plain_chain]) -- and when the definition and the children resolve *)
+Theorem C14_alias_children_pre :
+  forall (cfg : mconfig) (k d : str) (D ch R K : list anode),
+    def_of cfg (Some k) = Some d -> self_free cfg d = true -> parse_def cfg d = Ok D ->
+    live cfg (length (mc_snippets cfg)) [] D ->
+    walk_resolve (full_fuel cfg) cfg [] D = Ok R -> walk_resolve (full_fuel cfg) cfg [] ch = Ok K ->
+    walk_resolve (full_fuel cfg) cfg [] [ANode (Some k) None None None ch false] =
+    walk_resolve (full_fuel cfg) cfg [] (attach_deepest D ch).
+Proof. exact alias_children_pre. Qed.
+Print Assumptions C14_alias_children_pre.
+
+Theorem C14_alias_children_pre_plain :
+  forall (cfg : mconfig) (k d : str) (D ch R K : list anode),
+    def_of cfg (Some k) = Some d -> self_free cfg d = true -> parse_def cfg d = Ok D ->
+    plain_chain cfg [] D ->
+    walk_resolve (full_fuel cfg) cfg [] D = Ok R -> walk_resolve (full_fuel cfg) cfg [] ch = Ok K ->
+    walk_resolve (full_fuel cfg) cfg [] [ANode (Some k) None None None ch false] =
+    walk_resolve (full_fuel cfg) cfg [] (attach_deepest D ch).
+Proof. exact alias_children_pre_plain. Qed.
+Print Assumptions C14_alias_children_pre_plain.
+
+(* resolution commutes with hanging a forest below find_deepest, for ANY forest with a live chain, any
+   stack and fuel (the lemma behind it) *)
+Theorem C14_attach_resolve :
+  forall (cfg : mconfig) (f : nat) (st : list str) (D : list anode), live cfg f st D ->
+  forall R X K, walk_resolve (S f) cfg st D = Ok R -> walk_resolve (S f) cfg st X = Ok K ->
+    walk_resolve (S f) cfg st (attach_deepest D X) = Ok (attach_deepest R K).
+Proof. exact attach_resolve. Qed.
+Print Assumptions C14_attach_resolve.
+
+(* why the side condition: k = `p>e`, e = `()` (a definition that resolves to nothing): `k>b` puts b into p,
+   the definition in place `p>e>b` loses it; the same on the implementation (corpus/C14/dead-chain-*.json) *)
+Theorem C14_dead_chain_differs :
+  self_free void_cfg [112;62;101]%N = true /\
+  exists D t1 t2, parse_def void_cfg [112;62;101]%N = Ok D /\
+    walk_resolve (full_fuel void_cfg) void_cfg [] [ANode (Some [107]%N) None None None [ANode (Some [98]%N) None None None [] false] false] = Ok t1 /\
+    walk_resolve (full_fuel void_cfg) void_cfg [] (attach_deepest D [ANode (Some [98]%N) None None None [] false]) = Ok t2 /\
+    t1 <> t2.
+Proof. exact dead_chain_differs. Qed.
+Print Assumptions C14_dead_chain_differs.
+
+(* the decorated alias as a STRING, alias side (k, c key texts; the child / sibling c may itself be an
+   alias): what markup_parse makes of `k>c`, `k+c`, `k.c`, `k#c` in terms of the definition resolved in
+   place.  (With jsx on, `K.C` is a member name, hence jsx off for the class form.) *)
+Theorem C14_alias_child_string :
+  forall (cfg : mconfig) (k c d : str),
+    key_text k = true -> key_text c = true ->
+    def_of cfg (Some k) = Some d -> self_free cfg d = true -> mc_text cfg = WNone ->
+    markup_parse cfg (k ++ c_gt :: c) =
+    let* resolved := resolve_def cfg d in
+    match resolved with
+    | [] => Ok []
+    | _ :: _ => let* kids := walk_resolve (full_fuel cfg) cfg [] [bare c] in
+                transform_list cfg (attach_deepest resolved kids)
+    end.
+Proof. exact alias_child_string. Qed.
+Print Assumptions C14_alias_child_string.
+
+Theorem C14_alias_sibling_string :
+  forall (cfg : mconfig) (k c d : str),
+    key_text k = true -> key_text c = true ->
+    def_of cfg (Some k) = Some d -> self_free cfg d = true -> mc_text cfg = WNone ->
+    markup_parse cfg (k ++ c_plus :: c) =
+    let* a := resolve_def cfg d in
+    let* b := walk_resolve (full_fuel cfg) cfg [] [bare c] in
+    transform_list cfg (a ++ b).
+Proof. exact alias_sibling_string. Qed.
+Print Assumptions C14_alias_sibling_string.
+
+Theorem C14_alias_class_string :
+  forall (cfg : mconfig) (k c d : str),
+    key_text k = true -> key_text c = true -> mc_jsx cfg = false ->
+    def_of cfg (Some k) = Some d -> self_free cfg d = true -> mc_text cfg = WNone ->
+    markup_parse cfg (k ++ c_dot :: c) =
+    let* resolved := resolve_def cfg d in
+    transform_list cfg (map (add_attrs (mc_reverse_attrs cfg) [short_attr s_class c]) resolved).
+Proof. exact alias_class_string. Qed.
+Print Assumptions C14_alias_class_string.
+
+Theorem C14_alias_id_string :
+  forall (cfg : mconfig) (k c d : str),
+    key_text k = true -> key_text c = true -> mc_jsx cfg = false ->
+    def_of cfg (Some k) = Some d -> self_free cfg d = true -> mc_text cfg = WNone ->
+    markup_parse cfg (k ++ c_hash :: c) =
+    let* resolved := resolve_def cfg d in
+    transform_list cfg (map (add_attrs (mc_reverse_attrs cfg) [short_attr s_id c]) resolved).
+Proof. exact alias_id_string. Qed.
+Print Assumptions C14_alias_id_string.
+
+(* `k>c` = `d>c` as STRINGS, end to end (resolved and transformed trees, hence outputs), for all tables.
+   [child_reads_below cfg d c D]: the definition reads as the forest D and the text `d>c` as D with c hung below
+   find_deepest -- a statement about tokenizer + parser + converter alone, true when d ends with an element that is
+   not a text node, with no repeater on its last-child chain and no group at the end; decidable by evaluation
+   for a concrete d (C14_child_string_nonvacuous); C14_child_reads_below_flat derives it from the token structure
+   of d, the tokenizer part excepted. *)
+Theorem C14_alias_child_eq_definition_child :
+  forall (cfg : mconfig) (k c d : str) (D R K : list anode),
+    key_text k = true -> key_text c = true ->
+    def_of cfg (Some k) = Some d -> self_free cfg d = true ->
+    mc_jsx cfg = false -> mc_text cfg = WNone -> mc_max_repeat cfg = mc_max_repeat_snip cfg ->
+    child_reads_below cfg d c D ->
+    live cfg (length (mc_snippets cfg)) [] D ->
+    walk_resolve (full_fuel cfg) cfg [] D = Ok R -> walk_resolve (full_fuel cfg) cfg [] [bare c] = Ok K ->
+    markup_parse cfg (k ++ c_gt :: c) = markup_parse cfg (d ++ c_gt :: c).
+Proof. exact alias_child_eq_definition_child. Qed.
+Print Assumptions C14_alias_child_eq_definition_child.
+
+Example C14_child_string_nonvacuous :
+  exists D R K,
+    child_reads_below chs_cfg [100;105;118;46;97;62;119;43;101;109;91;116;61;49;93]%N [98]%N D /\
+    live chs_cfg (length (mc_snippets chs_cfg)) [] D /\
+    walk_resolve (full_fuel chs_cfg) chs_cfg [] D = Ok R /\
+    walk_resolve (full_fuel chs_cfg) chs_cfg [] [bare [98]%N] = Ok K /\
+    self_free chs_cfg [100;105;118;46;97;62;119;43;101;109;91;116;61;49;93]%N = true.
+Proof. exact alias_child_eq_definition_child_nonvacuous. Qed.
+
+(* ... and it fails for a text-only ending: in `p>{hi}>b` the converter makes b a sibling of the text *)
+Example C14_child_reads_below_fails_text :
+  exists D X, parse_def chs_cfg [112;62;123;104;105;125]%N = Ok D /\
+              parse_def chs_cfg [112;62;123;104;105;125;62;98]%N = Ok X /\ X <> attach_deepest D [bare [98]%N].
+Proof. exact child_reads_below_fails_text. Qed.
+
+(* the reading hypothesis [child_reads_below], parser + converter part: for every definition whose tokens are a
+   statement without groups (element blocks separated by `>` `+` `^`, [flat1]) ending with an element block l:
+   if appending `>c` leaves the tokens of d unchanged ([tok_ext], the tokenizer part, NOT proved here), no element
+   of the open spine at the end of d (the ancestors of l) and not l itself carries a repeater, and l is not a text
+   node ([elementish]: no text, or attributes, or a literal name), then `d>c` reads as D with c below find_deepest *)
+Theorem C14_child_reads_below_flat :
+  forall (cfg : mconfig) (d : str) (x : char) (xs : str) ys l toks gt ct (D : list anode),
+    tok_ext d (x :: xs) toks gt ct ->
+    flat1 false ys l toks ->
+    (let '(cur, st) := fold_left ParserSpine.step ys (TGroup [] None, []) in spine_norep cur st) ->
+    lf_repeat l = None -> elementish l ->
+    mc_text cfg = WNone ->
+    parse_def cfg d = Ok D ->
+    child_reads_below cfg d (x :: xs) D.
+Proof. exact child_reads_below_flat. Qed.
+Print Assumptions C14_child_reads_below_flat.
+
+(* an alias inside a larger abbreviation: siblings resolve independently (with C14_non_alias_kept for
+   the ancestors this places the theorems above at any position below non-alias elements) *)
+Theorem C14_resolve_siblings :
+  forall f cfg st l1 l2,
+    walk_resolve (S f) cfg st (l1 ++ l2) =
+    let* a := walk_resolve (S f) cfg st l1 in
+    let* b := walk_resolve (S f) cfg st l2 in Ok (a ++ b).
+Proof. exact walk_resolve_app. Qed.
+Print Assumptions C14_resolve_siblings.
+
+(* the reason for the acyclicity hypothesis: a = `b.x`, b = `a.y`; `a` gives <a class="y x">, its
+   definition `b.x` written in place gives <b class="x y x"> (the guard cuts one level later);
+   the same on the implementation (corpus/C14/cyclic-cut.json).  Not a violation of the statement:
+   resolution terminates on both sides. *)
+Theorem C14_cyclic_cut_refuted :
+  key_text [97]%N = true /\ def_of cyc_cfg (Some [97]%N) = Some [98;46;120]%N /\
+  same_reading cyc_cfg [98;46;120]%N /\ mc_text cyc_cfg = WNone /\
+  self_free cyc_cfg [98;46;120]%N = false /\
+  (exists t1 t2, markup_parse cyc_cfg [97]%N = Ok t1 /\ markup_parse cyc_cfg [98;46;120]%N = Ok t2 /\ t1 <> t2).
+Proof. exact cyclic_cut_refuted. Qed.
+Print Assumptions C14_cyclic_cut_refuted.
+
+(* the reason for `mc_text cfg = WNone`: with text = '' (or []) the converter writes the empty text on the
+   alias node, and that value replaces the definition's text: x = `p{hi}` gives <p></p>, `p{hi}` gives <p>hi</p> *)
+Theorem C14_empty_text_differs :
+  self_free txt_cfg [112;123;104;105;125]%N = true /\
+  (exists t1 t2, markup_parse txt_cfg [120]%N = Ok t1 /\ markup_parse txt_cfg [112;123;104;105;125]%N = Ok t2 /\ t1 <> t2).
+Proof. exact empty_text_differs. Qed.
+Print Assumptions C14_empty_text_differs.
+
+(* a cycle elsewhere is harmless: f = `a.x>b`, a = `a[href]` (the shape of the built-in a, img, link ...):
+   not acyclic from f's definition, but that definition does not reach itself, and alias = definition *)
+Theorem C14_self_free_weaker :
+  acyclic_from loop_cfg [97;46;120;62;98]%N = false /\ self_free loop_cfg [97;46;120;62;98]%N = true /\
+  exists t, markup_parse loop_cfg [102]%N = Ok t /\ markup_parse loop_cfg [97;46;120;62;98]%N = Ok t /\ length t = 1.
+Proof. exact self_free_weaker. Qed.
+Print Assumptions C14_self_free_weaker.
+
+(* non-vacuity of the acyclic theorem: nested aliases, a two-node definition, a key with `:` *)
+Example C14_acyclic_nonvacuous :
+  acyclic_table acy_cfg = true /\ key_text [117;58;120]%N = true /\
+  def_of acy_cfg (Some [117;58;120]%N) = Some [118;46;99;43;112]%N /\
+  exists t, markup_parse acy_cfg [117;58;120]%N = Ok t /\ length t = 2.
+Proof. exact alias_eq_definition_nonvacuous. Qed.
 
 (* non-vacuity: a mutually recursive table resolves (a -> b.x -> a.y stops at the guard) *)
 Example C14_nonvacuous :
